@@ -4,6 +4,7 @@ import (
 	"fmt"
 	"math/rand/v2"
 	"runtime"
+	"strings"
 	"sync"
 	"sync/atomic"
 	"testing"
@@ -542,4 +543,95 @@ func TestC03ConcurrentShutdown(t *testing.T) {
 	}
 	ev.Case(true, evid.Hash("concurrent-shutdown", cycles), "concurrent-shutdown")
 	ev.Add("concurrent-shutdown-cycles", int64(cycles))
+}
+
+// TestC03StartFailure: a Serve call that fails before the service has started - an event
+// listener on a pattern without handler (ValidateListeners) - returns an error; a Shutdown
+// call made then returns at once (not started), and once the missing handler is registered
+// the service can be served: a start that failed leaves the service stopped, not stuck.
+func TestC03StartFailure(t *testing.T) {
+	ev := evid.For("C03")
+	rapid.Check(t, func(rt *rapid.T) {
+		workers := rapid.SampledFrom([]int{1, 2, 8}).Draw(rt, "workers")
+		attempts := rapid.IntRange(1, 3).Draw(rt, "failedAttempts")
+		shutdownBetween := rapid.Bool().Draw(rt, "shutdownBetween")
+		var msg string
+		func() {
+			defer func() {
+				if v := recover(); v != nil {
+					msg = fmt.Sprintf("bubble ended abnormally (goroutines left blocked?): %v", v)
+				}
+			}()
+			synctest.Test(t, func(*testing.T) {
+				s := res.NewService("svc")
+				s.SetWorkerCount(workers)
+				s.SetLogger(nil)
+				s.Handle("g.$id", res.Call("do", func(r res.CallRequest) { r.OK(nil) }))
+				s.AddListener("late.$id", func(*res.Event) {})
+				for a := 0; a < attempts; a++ {
+					conn := fakeconn.New()
+					ret := make(chan error, 1)
+					go func() { ret <- s.Serve(conn) }()
+					synctest.Wait()
+					select {
+					case err := <-ret:
+						if err == nil {
+							msg = "Serve with an event listener on a pattern without handler returned nil"
+							return
+						}
+						if a > 0 && strings.Contains(err.Error(), "not stopped") {
+							msg = fmt.Sprintf("attempt %d: Serve is refused with %q after an earlier Serve call failed to start (the service never started)", a+1, err)
+							return
+						}
+					default:
+						msg = "Serve with an event listener on a pattern without handler neither served nor returned"
+						_ = s.Shutdown()
+						return
+					}
+					if shutdownBetween {
+						done := make(chan struct{})
+						go func() { _ = s.Shutdown(); close(done) }()
+						synctest.Wait()
+						select {
+						case <-done:
+						default:
+							msg = "Shutdown after a Serve call that failed to start does not return"
+							return
+						}
+					}
+				}
+				// the missing handler is registered: the service must be servable
+				s.Handle("late.$id", res.Call("do", func(r res.CallRequest) { r.OK(nil) }))
+				good := fakeconn.New()
+				served := make(chan struct{})
+				s.SetOnServe(func(*res.Service) { close(served) })
+				ret := make(chan error, 1)
+				go func() { ret <- s.Serve(good) }()
+				synctest.Wait()
+				select {
+				case <-served:
+				default:
+					err := error(nil)
+					select {
+					case err = <-ret:
+					default:
+					}
+					msg = fmt.Sprintf("after %d Serve calls that failed to start (listener without handler) and registering the handler, the service cannot be served: %v", attempts, err)
+					return
+				}
+				ran := 0
+				_ = s.With("svc.g.1", func(res.Resource) { ran++ })
+				synctest.Wait()
+				if ran != 1 {
+					msg = fmt.Sprintf("a With callback on the service ran %d times", ran)
+				}
+				_ = s.Shutdown()
+				<-ret
+			})
+		}()
+		ev.Case(true, evid.Hash("startfail", workers, attempts, shutdownBetween), "start-failure")
+		if msg != "" {
+			rt.Fatalf("%s (workers %d, failed attempts %d, Shutdown in between %v)", msg, workers, attempts, shutdownBetween)
+		}
+	})
 }
